@@ -391,10 +391,9 @@ func ruleA15b(r *Run, p *Prog, rule string) {
 		return
 	}
 	n := 0
-	for _, f := range p.ModFns {
-		if pkgRel(f) != diodesRel {
-			continue
-		}
+	// judged with private helpers inlined into their callers: a `wake()` helper that broadcasts is
+	// part of Set (no mutex) and of the cancel goroutine (mutex held)
+	for _, f := range p.RootViews([]string{diodesRel}, "", nil) {
 		eachInstr(f, func(b *ssa.BasicBlock, i int, in ssa.Instruction) {
 			c, ok := in.(*ssa.Call)
 			if !ok || !(isCallTo(&c.Call, "(*sync.Cond).Broadcast") || isCallTo(&c.Call, "(*sync.Cond).Signal")) {
@@ -412,6 +411,7 @@ func ruleA15b(r *Run, p *Prog, rule string) {
 	// the waiter: Wait is called with the mutex held, inside a loop that re-tests TryNext
 	next := p.Method(diodesRel, "Waiter", "Next")
 	if r.Anchor(next != nil, rule, "(*Waiter).Next") {
+		next = p.View(next, "keep-isDone", isDoneFn)
 		eachInstr(next, func(b *ssa.BasicBlock, i int, in ssa.Instruction) {
 			c, ok := in.(*ssa.Call)
 			if !ok || !isCallTo(&c.Call, "(*sync.Cond).Wait") {
